@@ -93,6 +93,9 @@ func (o *Obl) query(extra ...string) string {
 // another is reported as an engine error by the caller (Verdict "conflict").
 func dischargeOnce(o *Obl, cfg *solverCfg, idx int, extra ...string) {
 	file := filepath.Join(cfg.tmp, fmt.Sprintf("q%d.smt2", idx))
+	if cfg.keepFiles {
+		file = filepath.Join(cfg.tmp, fmt.Sprintf("%s.q%d.smt2", sanitize(o.Name), idx))
+	}
 	qtext := o.query(extra...)
 	// z3 gets the zero row as a constant array (no quantifier: failed goals then come
 	// back `sat` with a model); cvc5, whose array solver rejects chains over constant
